@@ -80,3 +80,71 @@ Example snapshot_frozen_without_reset_refuted :
   exists r, In r (w_handed w1) /\ abs 10 (w_st w2) r <> abs 10 (w_st w1) r.
 Proof. exact snapshot_frozen_needs_reset. Qed.
 Print Assumptions snapshot_frozen_without_reset_refuted.
+
+(* ---- cow_refines_pure: the object-level code computes what the pure model (Tree.v) computes ---- *)
+(* [trep s T]: the roots array of the open transaction in heap s represents the pure transaction state T
+   (rep: node objects and children arrays read back as the pure tree), TREE-SHAPED: no node or array
+   object is reachable twice (NoDup of the footprint) — this is what makes the in-place writes of
+   updateEdge / sort / key patch safe for the transaction's OWN view.  [roots_wf]: every method root is
+   found under its key, GET/POST/PUT/DELETE are present, roots carry no route.
+   One operation (Handle / Update / Delete / Truncate on the open transaction), for every eviction
+   schedule: if the model returns (no Go panic, fuel sufficient) then the state after represents the
+   pure operation applied to the state before, and the caller sees the same outcome
+   (ok / exists / not found / conflict list / removed route). *)
+Theorem cow_refines_pure :
+  forall evict, evict_ok evict ->
+  forall fuel o s T res s',
+    good 1%positive s -> trep s T -> roots_wf (t_roots T) ->
+    run_op evict fuel o s = Ok (res, s') ->
+    good 1%positive s' /\ trep s' (fst (fst (pure_op T o))) /\ roots_wf (t_roots (fst (fst (pure_op T o)))) /\
+    res = (snd (fst (pure_op T o)), snd (pure_op T o)).
+Proof. exact run_op_refines. Qed.
+Print Assumptions cow_refines_pure.
+
+(* the function abs reads exactly what trep relates (for every fuel not below the height of the tree) *)
+Theorem abs_reads_trep :
+  forall s T f, trep s T -> (roots_height (t_roots T) <= f)%nat ->
+    abs_txn f s (s_root s) (s_size s) (s_maxp s) (s_depth s) = Some T.
+Proof. exact trep_abs. Qed.
+Print Assumptions abs_reads_trep.
+
+(* whole histories (transactions, single-operation helpers, commits, aborts, snapshots anywhere), from the
+   initial router: the answers are those of the pure history (Tree.v operations on values), the published
+   tree and the open transaction read back (abs) as the pure states.  [clean] = the model run met no Go
+   panic and did not run out of fuel (both are distinct outcomes of the model, compared with the
+   implementation on every run of the check; lists mism / oof). *)
+Theorem cow_refines_pure_histories :
+  forall evict fuel es,
+    evict_ok evict -> clean evict fuel init_world es ->
+    let w := run evict fuel true init_world es in
+    let q := prun init_pworld es in
+    trace evict fuel init_world es = ptrace init_pworld es /\
+    w_open w = is_some_txn (q_cur q) /\
+    exists f0, forall f, (f0 <= f)%nat ->
+      abs_pub f w = Some (q_pub q) /\
+      match q_cur q with Some T => abs_cur f w = Some T | None => True end.
+Proof. exact cow_refines_pure_hist. Qed.
+Print Assumptions cow_refines_pure_histories.
+
+(* ---- the converse clause of the property: writes are unaffected by the existence of snapshots ---- *)
+(* the same history with every snapshot-taking event removed (strip_snaps) gives the same answers to the
+   remaining calls and the same published and transaction states *)
+Theorem snapshots_do_not_affect_writes :
+  forall evict fuel es,
+    evict_ok evict -> clean evict fuel init_world es -> clean evict fuel init_world (strip_snaps es) ->
+    let w1 := run evict fuel true init_world es in
+    let w2 := run evict fuel true init_world (strip_snaps es) in
+    trace evict fuel init_world (strip_snaps es) = strip_tr es (trace evict fuel init_world es) /\
+    w_open w1 = w_open w2 /\
+    exists T f0, forall f, (f0 <= f)%nat ->
+      abs_pub f w1 = Some T /\ abs_pub f w2 = Some T /\
+      (w_open w1 = true -> exists Tc, abs_cur f w1 = Some Tc /\ abs_cur f w2 = Some Tc).
+Proof. exact snapshots_do_not_affect_writes_thm. Qed.
+Print Assumptions snapshots_do_not_affect_writes.
+
+(* non-vacuity of [clean]: a history with inserts (split, hostname), update, deletes (merge, hostname split
+   node dropped, custom method root removed), truncate, snapshots inside the transaction, cache capacity 2 *)
+Example clean_nonvacuous :
+  clean (lru_evict 2) 20 init_world refine_hist /\ clean (lru_evict 2) 20 init_world (strip_snaps refine_hist).
+Proof. exact clean_example. Qed.
+Print Assumptions clean_nonvacuous.
